@@ -165,16 +165,28 @@ def step (ds : DState) (line : String) : DState × String :=
     (ds, match id.toNat?, decVals vals, ds.get dn with
       | some i, some vs, some l =>
         (match l.find? (·.id == UInt32.ofNat i) with
-        | some m => (match Msg.encode m.rw (ver == "v2") vs with
-          | .ok p => "ok:" ++ (if p.isEmpty then "-" else toHex p) | .panic => "panic")
+        | some m =>
+          let mo := (match Msg.encode m.rw (ver == "v2") vs with
+            | .ok p => "ok:" ++ (if p.isEmpty then "-" else toHex p) | .panic => "panic")
+          let sp := match Spec.Msg.ofGo m.st with
+            | some d => let p := Spec.Msg.encode d (ver == "v2") vs; "ok:" ++ (if p.isEmpty then "-" else toHex p)
+            | none => "-"
+          mo ++ "\t" ++ sp
         | none => "no-msg")
       | _, _, _ => "bad-op")
   | ["msgdec", dn, id, ver, p] =>
     (ds, match id.toNat?, fromHex p, ds.get dn with
       | some i, some bs, some l =>
         (match l.find? (·.id == UInt32.ofNat i) with
-        | some m => (match Msg.decode m.rw (ver == "v2") bs with
-          | .ok vs => "ok:" ++ encVals vs | .errSize => "err:size" | .panic => "panic")
+        | some m =>
+          let mo := (match Msg.decode m.rw (ver == "v2") bs with
+            | .ok vs => "ok:" ++ encVals vs | .errSize => "err:size" | .panic => "panic")
+          let isStr := fun i => match m.st.fields[i]? with | some f => f.elemType == "string" && f.mavenum == "" | none => false
+          let sp := match Spec.Msg.ofGo m.st with
+            | some d => (match Spec.Msg.decode d isStr (ver == "v2") bs with
+              | .ok vs => "ok:" ++ encVals vs | .errSize => "err:size")
+            | none => "-"
+          mo ++ "\t" ++ sp
         | none => "no-msg")
       | _, _, _ => "bad-op")
   | _ => (ds, "bad-op")
